@@ -395,7 +395,19 @@ func (p *Program) buildEdges() {
 // Callers returns the resolved call edges into fn from module code.
 func (p *Program) Callers(fn *ssa.Function) []*CallEdge {
 	p.buildEdges()
-	return p.callersOf[fn]
+	// a compiler-made wrapper (pointer-receiver wrapper of a value method, bound-method thunk) is transparent: the
+	// callers of the wrapper are the callers, at their own call sites
+	var out []*CallEdge
+	for _, e := range p.callersOf[fn] {
+		if e.Caller != nil && e.Caller.Synthetic != "" && (strings.HasPrefix(e.Caller.Synthetic, "wrapper") || strings.HasPrefix(e.Caller.Synthetic, "bound") || strings.HasPrefix(e.Caller.Synthetic, "thunk")) {
+			for _, e2 := range p.callersOf[e.Caller] {
+				out = append(out, &CallEdge{Caller: e2.Caller, Site: e2.Site, Callee: fn})
+			}
+			continue
+		}
+		out = append(out, e)
+	}
+	return out
 }
 
 // Reachable returns the set of functions reachable from roots in the call
